@@ -261,6 +261,11 @@ class Layout:
             return [Field(None, "repeat", src=repeat_src(e.elt, g.target, g.iter, g.ifs))]
         if isinstance(e, ast.Name) and e.id in self.env:
             return list(self.env[e.id])
+        if isinstance(e, ast.BinOp) and isinstance(e.op, ast.Add):
+            # list concatenation: [a] + [f(x) for x in xs]
+            return self.chunks(e.left) + self.chunks(e.right)
+        if isinstance(e, ast.Call) and isinstance(e.func, ast.Name) and e.func.id in ("list", "tuple") and len(e.args) == 1 and not e.keywords:
+            return self.chunks(e.args[0])
         return [Field(None, "bytes", src=f"join({self.src(e)})")]
 
     def run(self, stmts: List[ast.stmt]) -> Optional[List[Field]]:
